@@ -56,6 +56,7 @@ type Exec struct {
 	preds    map[string]*predDef
 	unfolded map[string]bool
 	expandPreds bool
+	predApps int
 	hookNew  Value
 	havocStore bool
 	wfDone   map[string]bool
